@@ -152,6 +152,17 @@ class TracerReplayer:
                 self.graph_nodes.append(fl[-1])
             elif e["on"]:
                 raise Mismatch("record-count", "item assignment recorded %d nodes" % (len(fl) - nbefore))
+        elif op == "seta":
+            nbefore = len(self.cg.functionList)
+            X[a][...] = X[b]
+            r = None
+            fl = self.cg.functionList
+            if e["on"] and len(fl) == nbefore + 1 and fl[-1].func is operator.setitem:
+                self.graph_nodes.append(fl[-1])
+            elif e["on"]:
+                raise Mismatch("record-count", "item assignment recorded %d nodes" % (len(fl) - nbefore))
+        elif op == "dot":
+            r = al.dot(X[a], X[b])
         elif op in OPS:
             r = OPS[op](X[a], X[b])
         elif op == "neg":
@@ -165,12 +176,12 @@ class TracerReplayer:
         else:
             raise Machinery("unknown instruction " + op)
         self.nodes.append(r); self.recd.append(bool(e["on"]))
-        if op != "set" and e["on"]:
+        if op not in ("set", "seta") and e["on"]:
             self.graph_nodes.append(r)
         self.check_graph()
         if r is not None and e["v"] and self.rec_kind == "U":
             check_val(r.x, e["v"], "value of node %d while recording" % len(self.nodes))
-        if op == "set" and not e["on"]:
+        if op in ("set", "seta") and not e["on"]:
             raise Machinery("spec generated an in-place write while recording is off")
 
     def stop(self):
@@ -539,7 +550,42 @@ def full_api_histories(rep, seed, n=60):
 
 
 def jacobian_utpm_check(rep, seed):
-    pass
+    """jacobian(UTPM x) with several directions and degrees: every entry must be the Taylor expansion of the analytic
+    Jacobian entry along each direction's curve (the entries are polynomials, expanded with UTPM arithmetic = C02)"""
+    import random
+    algopy = load_algopy()
+    from algopy import UTPM
+    rnd = random.Random(seed + 3)
+    for it in range(6):
+        M = 2 + it % 2
+        cg = algopy.CGraph()
+        x = algopy.Function(numpy.array([1., 2., 3.]))
+        y = algopy.zeros(M, dtype=x)
+        y[0] = x[0] * x[1] * x[1] + x[2]
+        y[1] = x[2] * x[2] * x[0] - x[1]
+        if M == 3:
+            y[2] = x[0] * x[1] * x[2]
+        cg.trace_off(); cg.independentFunctionList = [x]; cg.dependentFunctionList = [y]
+        D = rnd.choice([1, 2, 3]); P = rnd.choice([1, 2, 3])
+        data = numpy.array([[[rnd.randint(-2, 3) * 0.5 for _ in range(3)] for _ in range(P)] for _ in range(D)])
+        X = UTPM(data.copy())
+        one = X[0] * 0 + 1.0; zero = X[0] * 0
+        rows = [[X[1] * X[1], 2.0 * X[0] * X[1], one], [X[2] * X[2], zero - 1.0, 2.0 * X[2] * X[0]], [X[1] * X[2], X[0] * X[2], X[0] * X[1]]][:M]
+        rep.case(("jacobian_utpm", it, D, P, M), nontrivial=True); rep.replayed(1)
+        try:
+            J = cg.jacobian(UTPM(data.copy()))
+            if J.data.shape != (D, P, M, 3):
+                rep.violation("jacobian(UTPM) shape", {"got": list(J.data.shape), "expected": [D, P, M, 3]}); continue
+            for i in range(M):
+                for j in range(3):
+                    if not numpy.allclose(J.data[:, :, i, j], rows[i][j].data, rtol=1e-10, atol=1e-12):
+                        rep.violation("jacobian(UTPM): entry is not the Taylor expansion of dy_i/dx_j along the curve",
+                                      {"entry": [i, j], "D": D, "P": P, "M": M, "got": J.data[:, :, i, j].tolist(), "expected": rows[i][j].data.tolist()})
+                        raise StopIteration
+        except StopIteration:
+            pass
+        except Exception as ex:
+            rep.violation("jacobian(UTPM) raises " + type(ex).__name__, {"what": repr(ex)[-300:]})
 
 
 def full_api_adjoint(rep, seed, n=80):
